@@ -88,7 +88,7 @@ package iavl
 //@ func (*Tree).balance(tree, node) (newSelf, err)
 //@   props C19
 //@   nosafety
-//@   requires tree != nil && node != nil
+//@   requires tree != nil && node != nil && tree.version >= 0 && tree.version < 9223372036854775807
 //@   ensures [persisted-refused] old(node.hash) != nil ==> err != nil && newSelf == nil
 //@   callsite Tree).rotateRight@1 [left-left] arg1 == node && balance > 1 && lftBalance >= 0
 //@   callsite Tree).rotateLeft@1 [left-right-inner] balance > 1 && lftBalance < 0
@@ -103,7 +103,7 @@ package iavl
 //@ func (*Tree).rotateRight(tree, node) (res, err)
 //@   props C19
 //@   nosafety
-//@   requires tree != nil && node != nil
+//@   requires tree != nil && node != nil && tree.version >= 0 && tree.version < 9223372036854775807
 //@   macro inmem = old(node.leftNode != nil && allocated(node.leftNode) && node.leftNode != node && node.leftNode.subtreeHeight != 0 && node.subtreeHeight != 0 && node.leftNode.rightNode != nil && allocated(node.leftNode.rightNode) && node.leftNode.rightNode != node && node.leftNode.rightNode != node.leftNode)
 //@   ensures [lifted] err == nil && inmem ==> res == old(node.leftNode) && res.rightNode == node && node.leftNode == old(node.leftNode.rightNode)
 //@   ensures [others-kept] err == nil && inmem && old(node.rightNode) != nil && old(node.leftNode.leftNode) != nil ==> node.rightNode == old(node.rightNode) && res.leftNode == old(node.leftNode.leftNode)
@@ -114,7 +114,7 @@ package iavl
 //@ func (*Tree).rotateLeft(tree, node) (res, err)
 //@   props C19
 //@   nosafety
-//@   requires tree != nil && node != nil
+//@   requires tree != nil && node != nil && tree.version >= 0 && tree.version < 9223372036854775807
 //@   macro inmem = old(node.rightNode != nil && allocated(node.rightNode) && node.rightNode != node && node.rightNode.subtreeHeight != 0 && node.subtreeHeight != 0 && node.rightNode.leftNode != nil && allocated(node.rightNode.leftNode) && node.rightNode.leftNode != node && node.rightNode.leftNode != node.rightNode)
 //@   ensures [lifted] err == nil && inmem ==> res == old(node.rightNode) && res.leftNode == node && node.rightNode == old(node.rightNode.leftNode)
 //@   ensures [others-kept] err == nil && inmem && old(node.leftNode) != nil && old(node.rightNode.rightNode) != nil ==> node.leftNode == old(node.leftNode) && res.rightNode == old(node.rightNode.rightNode)
@@ -242,7 +242,7 @@ package iavl
 //@ func (*Tree).recursiveRemove(tree, node, key) (newSelf, newKey, newValue, removed, err)
 //@   props C19
 //@   nosafety
-//@   requires tree != nil && node != nil
+//@   requires tree != nil && node != nil && tree.version >= 0 && tree.version < 9223372036854775807
 //@   ensures [leaf-hit] err == nil && old(node.subtreeHeight) == 0 && old(ord(key)) == old(ord(node.key)) ==> removed && newSelf == nil && newKey == nil
 //@   ensures [leaf-miss] err == nil && old(node.subtreeHeight) == 0 && old(ord(key)) != old(ord(node.key)) ==> !removed && newSelf == node && newKey == nil
 //@   ensures [untouched-when-absent] err == nil && !removed ==> newSelf == node && newKey == nil
